@@ -5,20 +5,22 @@ import json, os, re, glob
 
 V = '/verif'
 summary = open(f'{V}/out/seed_summary.txt').read().split('#####')
-runs = {}  # seed -> {prop: (line, [signatures])}
+runs = {}  # seed -> {prop: (line, [signatures])} (last evaluation wins)
+first_runs = {}  # seed -> {prop: violations in the FIRST evaluation}
 for blk in summary:
     lines = [l for l in blk.strip().splitlines() if l.strip()]
     if not lines:
         continue
-    m = re.match(r'\s*s(C\d\d)', lines[0])
+    m = re.match(r'\s*(s|r2)(C\d\d)', lines[0])
     if not m:
         continue
-    sid = m.group(1)
+    sid = m.group(2) + ('-2' if m.group(1) == 'r2' else '')
     cur = None
     for l in lines[1:]:
         mm = re.match(r'(C\d\d) quick: (.*)', l)
         if mm:
             cur = mm.group(1)
+            first_runs.setdefault(sid, {}).setdefault(cur, int(re.search(r'violations=(\d+)', mm.group(2)).group(1)))
             runs.setdefault(sid, {})[cur] = {'result': mm.group(2).strip(), 'signatures': []}
         elif 'signature:' in l and cur:
             runs[sid][cur]['signatures'].append(l.split('signature:')[1].strip())
@@ -34,6 +36,7 @@ for log in sorted(glob.glob(f'{V}/out/confirm/C*.log')):
     if not res:
         print(sid, 'no RESULT line'); continue
     r0, r1, r2 = map(int, res.groups())
+    first = first_runs.get(sid, {})
     caught, missed = {}, []
     for p, r in sorted(runs.get(sid, {}).items()):
         v = int(re.search(r'violations=(\d+)', r['result']).group(1))
@@ -42,7 +45,7 @@ for log in sorted(glob.glob(f'{V}/out/confirm/C*.log')):
         else:
             missed.append(p)
     meta = {
-        'property': ag.get('property', sid),
+        'property': ag.get('property', sid[:3]),
         'summary': ag.get('summary'),
         'needs_to_manifest': ag.get('needs_to_manifest'),
         'files_touched': ag.get('files_touched'),
@@ -58,6 +61,7 @@ for log in sorted(glob.glob(f'{V}/out/confirm/C*.log')):
         'checks_run_against_it': {
             'how': 'seedeval.sh: patch applied to a scratch worktree, VERIF_REPO=<worktree> ./check <ID> quick (own binary / module file / output dir), worktree removed',
             'caught_by': caught, 'not_caught_by': missed,
+            'missed_in_first_evaluation_then_check_strengthened': sorted(p for p in caught if first.get(p, 1) == 0),
         },
     }
     extra = f'{d}/notes.json'
